@@ -6,6 +6,7 @@
 -/
 import PK.Model.Machine
 import PK.Model.Games
+import PK.Model.Analysis
 open PK PK.State
 
 namespace Driver
@@ -235,6 +236,27 @@ def finish (cfg : Config) (env : Env) (out : IO.FS.Stream) (m : M) (withQ : Bool
     out.putStrLn ("Q " ++ ";".intercalate (queries cfg env m.st))
   out.putStrLn "."
 
+def unhex (hex : String) : List Char :=
+  (hex.splitOn ".").filterMap fun h =>
+    if h.isEmpty then none else
+    (h.toList.foldl (fun (acc : Option Nat) c =>
+      match acc with
+      | none => none
+      | some v =>
+        if '0' ≤ c && c ≤ '9' then some (v * 16 + (c.toNat - '0'.toNat))
+        else if 'a' ≤ c && c ≤ 'f' then some (v * 16 + (c.toNat - 'a'.toNat + 10))
+        else none) (some 0)).map Char.ofNat
+
+def pRat (r : Rat) : String := if r.den == 1 then toString r.num else s!"{r.num}/{r.den}"
+
+def ratOf (s : String) : Option Rat :=
+  match s.splitOn "/" with
+  | [a] => a.toInt?.map fun x => (x : Rat)
+  | [a, b] => match a.toInt?, b.toInt? with
+    | some x, some y => if y == 0 then none else some ((x : Rat) / (y : Rat))
+    | _, _ => none
+  | _ => none
+
 partial def loop (T : Tables) (inp out : IO.FS.Stream) (ss : Sess) : IO Unit := do
   let line ← inp.getLine
   if line.isEmpty then return ()
@@ -338,17 +360,29 @@ partial def loop (T : Tables) (inp out : IO.FS.Stream) (ss : Sess) : IO Unit := 
         out.putStrLn s!"T {h} {pBool su} {e.index} {e.label}"
       out.putStrLn "."
       loop T inp out ss
+  | ["range", order, hex] =>
+    -- `parse_range(text, rank_order=order)`; text as hexadecimal code points separated by `.`
+    let ro := if order == "short" then RankOrder.shortDeck else if order == "regular" then RankOrder.regular
+              else if order == "eight" then RankOrder.eightOrBetterLow else RankOrder.standard
+    (match parseRange ro (unhex hex) with
+    | .ok l => out.putStrLn ("G " ++ " ".intercalate (l.map Card.reprs))
+    | .error _ => out.putStrLn "G !ValueError")
+    loop T inp out ss
+  | "equities" :: n :: rows =>
+    -- `equities <n> <row>…`, a row = comma-separated strengths of one hand type, `-` for no hand
+    let hands := rows.map fun r => (r.splitOn ",").map fun x => if x == "-" then none else x.toInt?
+    out.putStrLn ("Y " ++ " ".intercalate ((equitiesGiven (n.toNat?.getD 0) hands).map pRat))
+    loop T inp out ss
+  | "icm" :: rest =>
+    -- `icm <payout>… | <chips>…` with rationals written `p/q`
+    let i := rest.idxOf "|"
+    let pay := (rest.take i).filterMap ratOf
+    let chips := (rest.drop (i + 1)).filterMap ratOf
+    out.putStrLn ("I " ++ " ".intercalate ((icm pay chips).map pRat))
+    loop T inp out ss
   | ["parsex", hex] =>
     -- card text given as the hexadecimal code points of its characters, separated by `.`
-    let cs := (hex.splitOn ".").filterMap fun h =>
-      if h.isEmpty then none else
-      (h.toList.foldl (fun (acc : Option Nat) c =>
-        match acc with
-        | none => none
-        | some v =>
-          if '0' ≤ c && c ≤ '9' then some (v * 16 + (c.toNat - '0'.toNat))
-          else if 'a' ≤ c && c ≤ 'f' then some (v * 16 + (c.toNat - 'a'.toNat + 10))
-          else none) (some 0)).map Char.ofNat
+    let cs := unhex hex
     (match Card.parseChars cs with
     | some cs => out.putStrLn ("P " ++ pCards cs)
     | none => out.putStrLn "P !ValueError")
